@@ -23,6 +23,30 @@ def gen_cases(tier, rng):
     return ["%s # %d" % (" ".join(fault.gen_history(rng, i, rng.choice([12, 20, 30]))), limit) for i in range(n)]
 
 
+def gen_directed(tier, rng):
+    """fault positions that random histories rarely reach, every position of the class tried
+    (limit 60): (a) the open-for-read of a level-0 table that is not in the table cache (written by
+    an earlier session) when a compaction opens its inputs; (b) the size query on a write-ahead log
+    that a reopen is about to append to, followed by more than one block of writes and another
+    reopen"""
+    cases = []
+    big = "%d:%d:4096:1" % (1 << 20, 1 << 20)
+    for i in range(2 if tier == "quick" else 20):
+        v = lambda: "x%02x%02x" % (rng.randrange(256), rng.randrange(256))
+        small = "4096:4096:256:0"
+        toks = ["da%d" % i, small, "Px61=" + v(), "Px62=" + v(), "C-:-", "Px61=" + v(), "Dx62" if rng.random() < 0.5 else "Px62=" + v(),
+                "O" + small, "O" + small, "C-:-", "Gx61", "Gx62", "Px63=" + v(), "Gx61"]
+        cases.append("%s # 60" % " ".join(toks))
+    # (b): the first record appended after the reopen ends 0..17 bytes before the end of what the
+    # writer believes to be its first block if it (wrongly) starts counting at 0
+    sweep = range(32768 - 44, 32768 - 20, 1 if tier == "thorough" else 1)
+    for j, L in enumerate(sweep):
+        toks = ["db%d" % j, big, "Px61=p%d.7.3" % rng.choice([100, 2000, 9000]), "O" + big,
+                "Px62=p%d.9.1" % L, "Px63=x0303", "Px64=x04", "Dx61", "O" + big, "Gx61", "Gx62", "Gx63", "Gx64"]
+        cases.append("%s # 1 # size.wal.0.0 size.wal.1.0 size.wal.0.1" % " ".join(toks))
+    return cases
+
+
 def corpus():
     import os
     d = os.path.join(lib.VERIF, "corpus", "C08")
@@ -34,7 +58,7 @@ def corpus():
 
 
 def suites(tier, seed, rng):
-    return [fault.FaultSuite(corpus() + gen_cases(tier, rng)),
+    return [fault.FaultSuite(corpus() + gen_directed(tier, rng) + gen_cases(tier, rng)),
             wfault.WFaultSuite(wfault.gen_cases(tier, rng))]
 
 
